@@ -1,6 +1,7 @@
 import Thanos.Common.Parse
 import Thanos.Model.Bucket
 import Thanos.Model.DedupFilter
+import Thanos.Model.Retention
 /-
   Line-protocol driver of the `block` family (C28 C31 C32 C33 C35).
   One request per line, one answer per line; every line is self-contained.
@@ -12,6 +13,15 @@ import Thanos.Model.DedupFilter
 
   C31   dd.filter <metas>        metas = <id>:<group>:<src>,<src>,…;…   (sources `-` = none)
         answer: kept=<ids ascending> dups=<ids ascending>
+
+  C32   c32.ret <nowMs> <rets> <blocks>       rets = <res>:<durMs>:<shift>,…   blocks = <id>:<res>:<maxTimeMs>:<shift>;…
+          answer: marked=<ids ascending>
+        c32.clean <nowMs> <delayMs> <marks>   marks = <id>:<deletionTimeSec | ->;…
+          answer: deleted=<ids ascending>
+        c32.partial <nowMs> <markedIds> <partials>   partials = <id>:<ulidMs>:<lm>,<lm>,…:<iterFails 0|1>;…
+          answer: deleted=<ids ascending>
+        (times are absolute, around a nominal base; the Go side shifts them to the wall clock — `shift`
+        fields are for the Go side only)
 -/
 open Thanos Thanos.Parse
 
@@ -109,8 +119,69 @@ def ddFilter (metas : String) : String :=
     s!"kept={showNats "," (sortNats k)} dups={showNats "," (sortNats d)}"
   | none => "bad-op"
 
+-- ---------------------------------------------------------------- C32
+
+def parseRet (t : String) : Option (Int × Int) :=
+  match splitChar ':' t with
+  | [r, d, _] => do
+    let r ← parseInt? r
+    let d ← parseInt? d
+    pure (r, d * Retention.nsPerMs)
+  | _ => none
+
+def parseRBlock (t : String) : Option Retention.RBlock :=
+  match splitChar ':' t with
+  | [i, r, m, _] => do
+    let i ← parseNat? i
+    let r ← parseInt? r
+    let m ← parseInt? m
+    pure ⟨i, r, m⟩
+  | _ => none
+
+def c32Ret (now rets blocks : String) : String :=
+  match parseInt? now, (listOf ',' rets).mapM parseRet, (listOf ';' blocks).mapM parseRBlock with
+  | some now, some rets, some bs =>
+    s!"marked={showNats "," (sortNats (Retention.retentionMarked Retention.codeMsPrecision (now * Retention.nsPerMs) rets bs))}"
+  | _, _, _ => "bad-op"
+
+/-- `<id>:-` is a block without deletion mark: never in the cleaner's map -/
+def parseMark (t : String) : Option (Option Retention.Mark) :=
+  match splitChar ':' t with
+  | [i, d] => do
+    let i ← parseNat? i
+    if d = "-" then pure none else do
+      let d ← parseInt? d
+      pure (some ⟨i, d⟩)
+  | _ => none
+
+def c32Clean (now delay marks : String) : String :=
+  match parseInt? now, parseInt? delay, (listOf ';' marks).mapM parseMark with
+  | some now, some delay, some ms =>
+    let ms := ms.filterMap id
+    s!"deleted={showNats "," (sortNats (Retention.cleanerDeletes (now * Retention.nsPerMs) (delay * Retention.nsPerMs) ms))}"
+  | _, _, _ => "bad-op"
+
+def parsePartial (t : String) : Option Retention.Partial :=
+  match splitChar ':' t with
+  | [i, u, lms, f] => do
+    let i ← parseNat? i
+    let u ← parseInt? u
+    let lms ← parseInts? ',' lms
+    let f ← parseNat? f
+    pure ⟨i, u, lms, f != 0⟩
+  | _ => none
+
+def c32Partial (now marked partials : String) : String :=
+  match parseInt? now, parseNats? ',' marked, (listOf ';' partials).mapM parsePartial with
+  | some now, some marked, some ps =>
+    s!"deleted={showNats "," (sortNats (Retention.partialDeletes (now * Retention.nsPerMs) marked ps))}"
+  | _, _, _ => "bad-op"
+
 def handle : List String → String
   | ["blk.run", chunks, index, steps] => blkRun chunks index steps
+  | ["c32.ret", now, rets, blocks] => c32Ret now rets blocks
+  | ["c32.clean", now, delay, marks] => c32Clean now delay marks
+  | ["c32.partial", now, marked, partials] => c32Partial now marked partials
   | ["dd.filter", metas] => ddFilter metas
   | _ => "bad-op"
 
